@@ -19,6 +19,9 @@ Suites
 """
 import contextlib
 import io
+import os
+import shutil
+import tempfile
 import random
 import sys
 from fractions import Fraction
@@ -324,32 +327,54 @@ def enc_argv(argv):
     return out
 
 
-def run_real(argv, pre_seed):
-    """(answer string, events, text) of one real run in this process"""
-    _mod_random.seed(pre_seed)
-    for _ in range(pre_seed % 5):
-        _mod_random.random()
-    buf = io.StringIO()
-    with Recording() as rec:
-        try:
-            with contextlib.redirect_stdout(buf), contextlib.redirect_stderr(io.StringIO()):
-                (tool_pbgen if argv[0] == "pbgen" else tool_cnfgen).cli(list(argv), mode="output")
-            out = ("text", buf.getvalue())
-        except CLIError:
-            out = ("E", "cliError")
-        except SystemExit:
-            out = ("E", "cliError")
-        except Exception as e:  # noqa
-            out = ("E", "crash:" + type(e).__name__)
+def run_real(argv, pre_seed, files=None):
+    """(answer string, events, text) of one real run in this process; with `files` (name -> content) the run happens in a
+    fresh directory that contains exactly these files, and `rec.written` lists the files it left behind (name, text)"""
+    tmp = old = None
+    if files is not None:
+        tmp = tempfile.mkdtemp(prefix="c07run")
+        for k, v in files.items():
+            with open(os.path.join(tmp, k), "w", encoding="utf-8", newline="") as f:
+                f.write(v)
+        old = os.getcwd()
+        os.chdir(tmp)
+    try:
+        _mod_random.seed(pre_seed)
+        for _ in range(pre_seed % 5):
+            _mod_random.random()
+        buf = io.StringIO()
+        with Recording() as rec:
+            try:
+                with contextlib.redirect_stdout(buf), contextlib.redirect_stderr(io.StringIO()):
+                    (tool_pbgen if argv[0] == "pbgen" else tool_cnfgen).cli(list(argv), mode="output")
+                out = ("text", buf.getvalue())
+            except CLIError:
+                out = ("E", "cliError")
+            except SystemExit:
+                out = ("E", "cliError")
+            except Exception as e:  # noqa
+                out = ("E", "crash:" + type(e).__name__)
+        rec.written = []
+        if tmp is not None:
+            for k in sorted(os.listdir(tmp)):
+                with open(os.path.join(tmp, k), encoding="utf-8", newline="") as f:
+                    txt = f.read()
+                if files.get(k) != txt:
+                    rec.written.append((k, txt))
+    finally:
+        if tmp is not None:
+            os.chdir(old)
+            shutil.rmtree(tmp, ignore_errors=True)
     return out, rec
 
 
 class RunCase(Case):
     """the request depends on what the real run drew: it is built when first needed"""
-    __slots__ = ("_argv", "_req", "_ans", "_state")
+    __slots__ = ("_argv", "_req", "_ans", "_state", "_files")
 
-    def __init__(self, argv, cls):
+    def __init__(self, argv, cls, files=None):
         self._argv = list(argv)
+        self._files = files
         self._req = None
         self._ans = None
         self._state = {}
@@ -359,12 +384,16 @@ class RunCase(Case):
     def _prepare(self):
         if self._req is not None:
             return
-        out, rec = run_real(self._argv, 4242)
+        out, rec = run_real(self._argv, 4242, self._files)
         r0, rs, seeds, bad, ng, nf = split_stream(rec.stream)
         self._state.update(out=out, seeds=seeds, bad=bad, unknown=list(rec.unknown), events=rec.events)
-        self._req = req("clirun", enc_str(self._argv[0]), enc_argv(self._argv), enc_world(self._argv), enc_rng(r0), enc_rng(rs))
+        self._req = req("clirun", enc_str(self._argv[0]), enc_argv(self._argv), enc_world(self._argv, sorted((self._files or {}).items())), enc_rng(r0), enc_rng(rs))
+        self._state["written"] = rec.written
         if out[0] == "text":
-            self._ans = ok("T {} {} ".format(ng, nf) + " ".join(str(ord(c)) for c in out[1]) + " W 0")
+            wr = " W {}".format(len(rec.written))
+            for k, v in rec.written:
+                wr += " " + " ".join(str(x) for x in enc_str(k) + enc_str(v))
+            self._ans = ok("T {} {} ".format(ng, nf) + " ".join(str(ord(c)) for c in out[1]) + wr)
         else:
             self._ans = ok("E " + out[1])
 
@@ -399,7 +428,10 @@ class RunCase(Case):
         suspicious = any(s != seed for s in st["seeds"]) or \
             (st["out"][0] == "text" and any(e[0] == "draw" for e in st["events"][:first_seed]))
         for pre in ((977, 31, 5, 123456, 8) if suspicious else (977,)):
-            out2, _ = run_real(self._argv, pre)
+            out2, rec2 = run_real(self._argv, pre, self._files)
+            if out2 == st["out"] and rec2.written != st["written"]:
+                return {"argv": self._argv, "saved_graph_files_differ_between_generator_states":
+                        [st["written"][:1], rec2.written[:1]]}
             if out2 != st["out"]:
                 a = st["out"][1].split("\n") if st["out"][0] == "text" else [st["out"][1]]
                 b = out2[1].split("\n") if out2[0] == "text" else [out2[1]]
@@ -675,11 +707,54 @@ def chain_cmds(rng, tier):
     return out
 
 
+def _graph_text(kind, fmt, n, edges):
+    """a graph file written by the library itself"""
+    if kind == "simple":
+        G = graphs.Graph(n)
+    else:
+        G = graphs.BipartiteGraph(*n)
+    for e in edges:
+        G.add_edge(*e)
+    G.name = "a graph of the harness"
+    buf = io.StringIO()
+    graphs.writeGraph(G, buf, kind, fmt)
+    return buf.getvalue()
+
+
+def file_cmds(rng, tier):
+    """(sub-command words, files): `save` and graph FILE arguments; the content of the files is part of the environment"""
+    n = rng.randint(4, 6)
+    es = sorted(set(tuple(sorted(rng.sample(range(1, n + 1), 2))) for _ in range(n + 1)))
+    bes = sorted(set((rng.randint(1, 3), rng.randint(1, 3)) for _ in range(5)))
+    files = {"g1.kthlist": _graph_text("simple", "kthlist", n, es), "g2.dimacs": _graph_text("simple", "dimacs", n, es),
+             "g3.txt": _graph_text("simple", "kthlist", n, es), "b1.matrix": _graph_text("bipartite", "matrix", (3, 3), bes),
+             "b2.kthlist": _graph_text("bipartite", "kthlist", (3, 3), bes), "bad.kthlist": "c nothing\n3 x\n",
+             "crlf.dimacs": _graph_text("simple", "dimacs", n, es).replace("\n", "\r\n")}
+    cmds = [["kcolor", "2", "gnm", "4", "3", "save", "out.kthlist"], ["kcolor", "2", "gnd", "4", "2", "save", "dimacs", "out.x"],
+            ["kclique", "2", "gnp", "4", ".5", "addedges", "1", "save", "out.dimacs"], ["domset", "1", "gnm", "4", "2", "save", "out.unknown"],
+            ["php", "glrd", "3", "2", "1", "save", "out.matrix"], ["php", "glrm", "2", "3", "3", "addedges", "1", "save", "kthlist", "out"],
+            ["tseitin", "random", "gnm", "4", "4", "plantclique", "3", "save", "out.kthlist"], ["kcolor", "2", "gnm", "3", "2", "save"],
+            ["kcolor", "2", "g1.kthlist"], ["kcolor", "2", "kthlist", "g3.txt"], ["domset", "1", "g2.dimacs", "addedges", "1"],
+            ["kclique", "3", "g1.kthlist", "splitedges", "1"], ["php", "b1.matrix"], ["php", "--onto", "kthlist", "b2.kthlist", "addedges", "2"],
+            ["php", "b1.matrix", "plantbiclique", "1", "2"], ["kcolor", "2", "bad.kthlist"], ["kcolor", "2", "g3.txt"],
+            ["kclique", "2", "crlf.dimacs"], ["kcolor", "2", "matrix", "b1.matrix"],
+            ["kcolor", "2", "g1.kthlist", "splitedges", "2", "save", "out.dimacs"], ["php", "b2.kthlist", "save", "out.matrix"],
+            ["kcolor", "2", "g2.dimacs", "addedges", "1", "save", "g2.dimacs"], ["kcolor", "2", "gnm", "4", "3", "save", "out.kthlist", "-T", "shuffle"]]
+    return [(c, files) for c in cmds]
+
+
 def clirun_cases(ctx):
     rng = common.sub_rng(ctx["seed"], "C07_run", "clirun")
     tier = ctx["tier"]
     prefixes = seed_prefixes(rng, tier)
     out = []
+    for i, (c, files) in enumerate(file_cmds(rng, tier)):
+        p = prefixes[1 + i % (len(prefixes) - 1)]
+        out.append(RunCase(["cnfgen"] + p + c, cls="files:seed", files=files))
+        if i % 4 == 0:
+            out.append(RunCase(["cnfgen"] + c, cls="files:noseed", files=files))
+        if i % 5 == 1:
+            out.append(RunCase(["pbgen"] + p + c, cls="pbgen:files:seed", files=files))
     # the extended fragment: every command with a seed; every third one also without
     for i, c in enumerate(family_cmds(rng, tier) + chain_cmds(rng, tier)):
         p = prefixes[1 + i % (len(prefixes) - 1)]
